@@ -807,4 +807,12 @@ pub mod verif_hooks {
     ) -> error::Result<model::Value> {
         super::round(args, node, context)
     }
+
+    pub fn substring_range(len: usize, start: f64, length: Option<f64>) -> Range<usize> {
+        super::substring_range(len, start, length)
+    }
+
+    pub fn xpath_round(arg: f64) -> f64 {
+        super::xpath_round(arg)
+    }
 }
